@@ -662,6 +662,14 @@ func (t *tr) expr(e ast.Expr) string {
 			return "(" + a + " >? " + b + ")"
 		case token.GEQ:
 			return "(" + a + " >=? " + b + ")"
+		case token.SHR:
+			return "(Z.shiftr " + a + " " + b + ")"
+		case token.SHL:
+			return "(Z.shiftl " + a + " " + b + ")"
+		case token.OR:
+			return "(Z.lor " + a + " " + b + ")"
+		case token.AND:
+			return "(Z.land " + a + " " + b + ")"
 		}
 	case *ast.CallExpr:
 		fn := printNode(t.fset, x.Fun)
